@@ -148,6 +148,9 @@ def estimates_across_sparse_switch(c, param, who):
             note=f"{np.asarray(mp)} vs {ref_map} ({mp.info.get('solver')})")
 
 
+def direct_route_expected(geom): return geom in ('default', 'Continuous1D', 'subsample_view')
+
+
 def map_closed_form(c, m, n, noise_form, prior_form, noise_param='cov', prior_param='cov', geom='default'):
     BP, n = _problem(c, m, n, noise_form, prior_form, noise_param, prior_param, geom)
     post = BP.posterior
@@ -162,6 +165,10 @@ def map_closed_form(c, m, n, noise_form, prior_form, noise_param='cov', prior_pa
     S1 = (frame.snapshot(BP.likelihood.distribution, ('_matrix',)), frame.snapshot(BP.prior, ('_matrix',)))
     c.holds('computing_the_estimate_leaves_noise_model_and_prior_unchanged', frame.same(S0, S1), note='; '.join(frame.diff(S0, S1)))
     c.eq('a_second_call_returns_the_same_estimate', np.asarray(BP.MAP(disp=False)), np.asarray(xmap))
+    # the documented `x0` argument is a STARTING point: the estimate (a maximiser) does not depend on it - whichever route is taken
+    z = c.vec('zstart', n)
+    if direct_route_expected(geom) or c.sym:
+        c.eq('estimate_does_not_depend_on_the_starting_point_given', np.asarray(BP.MAP(disp=False, x0=z)), np.asarray(xmap), tol=1e-6)
     c.holds('map_has_parameter_shape', np.shape(xmap) == (n,), note=str(np.shape(xmap)))
     c.holds('map_carries_posterior_geometry', xmap.geometry == post.geometry)
     g = c.grad_at(lambda v: post.logd(v), np.asarray(xmap))
